@@ -186,7 +186,7 @@ def emit_ts(run, module, cfg_text, workers=4, timeout=1800):
     return path, False
 
 
-def product(run, ts_paths, tokens, n, cap, observers=(), budget=3000000, per_sig=2, max_wit=40, timeout=3000):
+def product(run, ts_paths, tokens, n, cap, observers=(), budget=3000000, per_sig=12, max_wit=240, timeout=3000):
     out = run.fresh("prod", ".json")
     wit = run.fresh("wit", ".ndjson")
     cmd = [HARNESS, "product", "--ts"] + list(ts_paths) + ["--tokens", json.dumps(tokens), "--n", str(n), "--cap", str(cap),
